@@ -399,6 +399,8 @@ structure UdpSt where
   enc : Enc
   dec : Dec
   decHeld : Option Dec := none  -- tunnel→UDP is blocked inside `udpConn.Write`; its state when the Write returns
+  nsent : Nat := 0              -- asynchronous local socket (`mapping.UDPVirtualConn`): `Write` only queues a private
+                                -- COPY of the datagram; so many of `dec.out` have been sent by its `writeLoop`
   udpClosed : Bool := false     -- the relay closed udpConn (tunnel direction ended)
   cwT : Bool := false           -- the relay half-closed the tunnel (UDP direction ended)
 deriving DecidableEq, Repr
@@ -411,6 +413,8 @@ encode, or a ticker flush) without interruption. `t`: one iteration of the tunne
 iteration) STAYS IN PROGRESS until `w`/`v`. A blocked goroutine does not move. -/
 inductive UTok where
   | u | t | uh | th | w | v
+  | s       -- asynchronous local socket: its send loop sends the next queued datagram
+  | sa      -- … sends everything that is queued
 deriving DecidableEq, Repr
 
 def utailEnd : Tl → Option Bool
@@ -454,6 +458,8 @@ def udpStep (v : Variant) (c : UdpCase) (s : UdpSt) (t : UTok) : UdpSt :=
   | .v => match s.decHeld with
     | some d => s.commitDec v d
     | none => s
+  | .s => if s.nsent < s.dec.out.length then { s with nsent := s.nsent + 1 } else s
+  | .sa => { s with nsent := s.dec.out.length }
 
 def udpRun (v : Variant) (c : UdpCase) (σ : List UTok) : UdpSt := σ.foldl (udpStep v c) (udpInit c)
 
@@ -462,7 +468,7 @@ def UdpSt.returned (s : UdpSt) : Bool := s.enc.done && s.dec.done
 /-- A schedule followed by: writes in progress complete, the UDP side runs until it ends or blocks,
 the tunnel side runs to its end, the UDP side gets one more turn (to notice that its socket was closed). -/
 def udpComplete (c : UdpCase) (σ : List UTok) : List UTok :=
-  σ ++ [.w, .v] ++ List.replicate (c.uevs.length + 1) .u ++ List.replicate (stepsFor c.tchunks) .t ++ [.u]
+  σ ++ [.w, .v] ++ List.replicate (c.uevs.length + 1) .u ++ List.replicate (stepsFor c.tchunks) .t ++ [.u] ++ [.sa]
 
 structure UdpObs where
   ret : Bool
@@ -478,6 +484,11 @@ deriving DecidableEq, Repr
 def udpObs (s : UdpSt) : UdpObs :=
   { ret := s.returned, tun := s.enc.flushes.flatten, udp := s.dec.out, nread := s.enc.nread,
     serr := s.enc.serr, rerr := s.dec.rerr, sent := s.enc.sent, recv := s.dec.recv }
+
+/-- Observation when the local side is the asynchronous `mapping.UDPVirtualConn`: the local application
+receives what the send loop has sent — the queued COPIES, whatever happened to the relay's read buffer
+between `Write` and the send. -/
+def udpObsV (s : UdpSt) : UdpObs := { udpObs s with udp := s.dec.out.take s.nsent }
 
 /-! ## SOCKS5 UDP-ASSOCIATE tunnel codec (internal/client/socks5_tunnel.go, `udpTunnelConn`)
 
